@@ -145,6 +145,11 @@ def _register_observable(new_observable, version=version.DEFAULT_VERSION):
     OBJ_MAP_OBSERVABLE[new_observable._type] = new_observable
 
 
+# STIX 2.1 extensions may be registered under the ID of their extension
+# definition instead of a type name (which cannot contain "--").
+EXTENSION_DEFINITION_ID_REGEX = re.compile(r'^extension-definition--[a-z0-9-]*\Z')
+
+
 def _register_extension(
     new_extension, version=version.DEFAULT_VERSION,
 ):
@@ -158,7 +163,15 @@ def _register_extension(
     """
     ext_type = new_extension._type
 
-    _validate_type(ext_type, version)
+    if version == "2.1" and ext_type.startswith('extension-definition--'):
+        if not re.match(EXTENSION_DEFINITION_ID_REGEX, ext_type) or len(ext_type) > 250:
+            raise ValueError(
+                "Invalid extension definition ID '%s': must only contain the "
+                "characters a-z (lowercase ASCII), 0-9, and hyphen (-) and "
+                "be at most 250 characters." % ext_type,
+            )
+    else:
+        _validate_type(ext_type, version)
     if version == "2.1":
         if not (ext_type.endswith('-ext') or ext_type.startswith('extension-definition--')):
             raise ValueError(
